@@ -83,6 +83,23 @@ class Source:
         return iter(self._lines)
 
 
+def canon_bytes(digits, values):
+    """Proof engineering for the reference reader (see ref.ihex.parse_record): the shims remember for
+    each symbolic hex digit which byte it was made from; offer that byte as an equal, simpler term.
+    The equality itself is NOT trusted: it is returned as a lemma and proved by the solver."""
+    out, lem = [], []
+    for k, val in enumerate(values):
+        th = getattr(digits[2 * k], "tag", None)
+        tl = getattr(digits[2 * k + 1], "tag", None)
+        if type(th) is tuple and type(tl) is tuple and len(th) == 4 and len(tl) == 4 \
+                and th[2] is tl[2] and th[3] == 1 and tl[3] == 0:
+            out.append(th[2])
+            lem.append(val == th[2])
+        else:
+            out.append(val)
+    return out, (sym_and(*lem) if lem else True)
+
+
 def regions_eq(xs, ys):
     if xs is None or ys is None or len(xs) != len(ys):
         return False
@@ -113,6 +130,7 @@ class RoundTrip(Harness):
     def inputs(self, mk):
         if mk.symbolic:
             seq.placeholders_begin()
+            core.INVERT_AS_NEG = True     # ~x encoded as -x-1: checksum identities cancel syntactically
         a = [mk.int(f"a{i}", 0, M32 - n) for i, n in enumerate(self.lens)]
         d = [mk.bytes(f"d{i}", n) for i, n in enumerate(self.lens)]
         start = mk.int("start", 0, M32 - 1)
@@ -158,7 +176,8 @@ class RoundTrip(Harness):
         if v["stage"] == "save":
             res["save-succeeds"] = False
             return res
-        dec = ihex.decode(v["lines"])
+        dec = ihex.decode(v["lines"], canon_bytes)
+        res["reader-digit-lemma"] = dec["lemmas"]
         res["records-wellformed"] = dec["records_ok"]
         res["file-structure"] = dec["structure_ok"]
         image, ov1 = ihex.normalize(dec["segments"])
